@@ -527,6 +527,23 @@ def _consulted_functions(root: str, only: Optional[str]) -> List[Tuple[str, str,
     return sorted(out)
 
 
+def _sites(fn: _ast.AST, kind: str) -> List[_ast.AST]:
+    out: List[_ast.AST] = []
+    for n in _ast.walk(fn):
+        if kind == "invert-if" and isinstance(n, _ast.If) and n.orelse and not (len(n.orelse) == 1 and isinstance(n.orelse[0], _ast.If)) and not any(isinstance(x, _ast.NamedExpr) for x in _ast.walk(n.test)):
+            out.append(n)
+        elif kind == "return-temp" and isinstance(n, _ast.Return) and n.value is not None and not isinstance(n.value, (_ast.Name, _ast.Constant)):
+            out.append(n)
+        elif kind == "elif-to-else-if" and isinstance(n, _ast.If) and len(n.orelse) == 1 and isinstance(n.orelse[0], _ast.If):
+            out.append(n)
+        elif kind == "flip-eq" and isinstance(n, _ast.Compare) and len(n.ops) == 1 and isinstance(n.ops[0], (_ast.Eq, _ast.NotEq)) and not isinstance(n.left, _ast.Constant):
+            out.append(n)
+    return out
+
+
+REFACTOR_KINDS = ("invert-if", "return-temp", "flip-eq")
+
+
 def refactor_jobs(root: str, only: Optional[str]) -> List[Tuple[str, str, str, str, int]]:
     from .cli import CLAIMED
 
@@ -537,11 +554,9 @@ def refactor_jobs(root: str, only: Optional[str]) -> List[Tuple[str, str, str, s
         fn = _find_def(tree, q)
         if fn is None:
             continue
-        k = 0
-        for n in _ast.walk(fn):
-            if isinstance(n, _ast.If) and n.orelse and not (len(n.orelse) == 1 and isinstance(n.orelse[0], _ast.If)) and not any(isinstance(x, _ast.NamedExpr) for x in _ast.walk(n.test)):
-                jobs.append((pid, "invert-if", rel, q, k))
-                k += 1
+        for kind in REFACTOR_KINDS:
+            for k in range(len(_sites(fn, kind))):
+                jobs.append((pid, kind, rel, q, k))
     return jobs
 
 
@@ -576,16 +591,28 @@ def _refactor_one(job: Tuple[str, Tuple[str, str, str, str, int]]) -> Dict[str, 
             fn = _find_def(tree, q)
             if fn is None:
                 return {"property": pid, "variant": label, "result": "skipped"}
-            i = 0
-            done = False
-            for n in _ast.walk(fn):
-                if isinstance(n, _ast.If) and n.orelse and not (len(n.orelse) == 1 and isinstance(n.orelse[0], _ast.If)) and not any(isinstance(x, _ast.NamedExpr) for x in _ast.walk(n.test)):
-                    if i == k:
-                        n.test = _ast.UnaryOp(op=_ast.Not(), operand=n.test)
-                        n.body, n.orelse = n.orelse, n.body
-                        done = True
-                        break
-                    i += 1
+            sites = _sites(fn, kind)
+            done = k < len(sites)
+            if done:
+                n = sites[k]
+                if kind == "invert-if":
+                    n.test = _ast.UnaryOp(op=_ast.Not(), operand=n.test)
+                    n.body, n.orelse = n.orelse, n.body
+                elif kind == "flip-eq":
+                    n.left, n.comparators = n.comparators[0], [n.left]
+                elif kind == "return-temp":
+                    # `return E`  ->  `_rt = E; return _rt`  (in the statement list that holds the return)
+                    for par in _ast.walk(fn):
+                        for fld in ("body", "orelse", "finalbody"):
+                            blk = getattr(par, fld, None)
+                            if isinstance(blk, list) and n in blk:
+                                i = blk.index(n)
+                                blk[i:i + 1] = [_ast.Assign(targets=[_ast.Name(id="_rt", ctx=_ast.Store())], value=n.value, lineno=n.lineno, col_offset=n.col_offset), _ast.Return(value=_ast.Name(id="_rt", ctx=_ast.Load()))]
+                        if isinstance(par, _ast.Try):
+                            for h in par.handlers:
+                                if n in h.body:
+                                    i = h.body.index(n)
+                                    h.body[i:i + 1] = [_ast.Assign(targets=[_ast.Name(id="_rt", ctx=_ast.Store())], value=n.value, lineno=n.lineno, col_offset=n.col_offset), _ast.Return(value=_ast.Name(id="_rt", ctx=_ast.Load()))]
             if not done:
                 return {"property": pid, "variant": label, "result": "skipped"}
             _ast.fix_missing_locations(tree)
